@@ -296,6 +296,7 @@ pub const FIXED_SEED: u64 = 20260925;
 pub fn fixed_zoo() -> Vec<ZooModule> {
     let mut z = systematic();
     z.extend(random_modules(FIXED_SEED, 60, 40));
+    z.extend(c03_shapes(3));
     z
 }
 
@@ -307,4 +308,72 @@ pub fn seeded_zoo(seed: u64) -> Vec<ZooModule> {
         m.group = "seeded".into();
     }
     z
+}
+
+// ---------------------------------------------------------------------------------------------
+// C03: every SEQUENCE/SET shape with <= n_max components
+
+/// component type of slot `i` in shape number `k` (rotating, pairwise distinctive widths incl. zero width)
+fn c03_type(i: usize, k: usize, kind: u8) -> (Type, Option<Lit>) {
+    let r = (i + k) % 6;
+    // NULL has no DEFAULT (README: unsupported); take the next type for DEFAULT slots
+    let r = if r == 5 && kind == 2 { 0 } else { r };
+    match r {
+        0 => (Type::int(0, 255), Some(Lit::Int(7))),
+        1 => (Type::Boolean, Some(Lit::Bool(true))),
+        2 => (Type::Str { cs: Charset::Ia5, size: Some(Size::range(1, Some(3), false)) }, Some(Lit::Str("ab".into()))),
+        3 => (Type::int(-8, 7), Some(Lit::Int(-3))),
+        4 => (Type::Ref("En".into()), Some(Lit::EnumItem("b".into()))),
+        _ => (Type::Null, None),
+    }
+}
+
+/// all shapes with n <= n_max components: kinds in {mandatory, OPTIONAL, DEFAULT}^n x marker position
+pub fn c03_shapes(n_max: usize) -> Vec<ZooModule> {
+    let mut shapes: Vec<(Vec<u8>, Option<usize>)> = Vec::new();
+    for n in 0..=n_max {
+        let combos = 3usize.pow(n as u32);
+        for c in 0..combos {
+            let kinds: Vec<u8> = (0..n).map(|i| ((c / 3usize.pow(i as u32)) % 3) as u8).collect();
+            shapes.push((kinds.clone(), None));
+            for after in 0..n {
+                shapes.push((kinds.clone(), Some(after + 1)));
+            }
+        }
+    }
+    let mut out = Vec::new();
+    for is_set in [false, true] {
+        for (chunk_no, chunk) in shapes.chunks(12).enumerate() {
+            let mut defs = vec![Def { name: "En".into(), tag: None, ty: Type::Enumerated { items: vec![("a".into(), None), ("b".into(), None), ("c".into(), None)], root: None } }];
+            for (j, (kinds, root)) in chunk.iter().enumerate() {
+                let k = chunk_no * 12 + j;
+                let n = kinds.len();
+                let n_root = root.unwrap_or(n);
+                let comps: Vec<Comp> = kinds
+                    .iter()
+                    .enumerate()
+                    .map(|(i, kind)| {
+                        let (ty, lit) = c03_type(i, k, *kind);
+                        // SET: explicit context tags that reverse the root order; additions ascending
+                        let tag = if is_set { Some(Tag { class: TagClass::Context, number: if i < n_root { (n_root - 1 - i) as u32 } else { (10 + i) as u32 } }) } else { None };
+                        Comp {
+                            name: format!("f{i}"),
+                            tag,
+                            ty,
+                            presence: match kind {
+                                0 => Presence::Mandatory,
+                                1 => Presence::Optional,
+                                _ => Presence::Default(DefaultVal { lit: lit.expect("default literal"), via: None }),
+                            },
+                        }
+                    })
+                    .collect();
+                let f = Fields { comps, root: *root };
+                defs.push(Def { name: format!("Ty{k}"), tag: None, ty: if is_set { Type::Set(f) } else { Type::Sequence(f) } });
+            }
+            let name = format!("C03{}{}", if is_set { "T" } else { "S" }, chunk_no);
+            out.push(ZooModule { module: Module::simple(&name, defs), conformance: true, group: "c03".into(), meta: serde_json::json!({"n_max": n_max}) });
+        }
+    }
+    out
 }
